@@ -196,6 +196,29 @@ def determinism_slice(mod, units):
     return len(units), outs[0] == outs[1], None
 
 
+def debuglog_slice(mod, units):
+    """
+    The same slice with DEBUG logging enabled for the package (an application that turns on debug
+    logging must not change what the library accepts, raises or delivers).
+    """
+    env = dict(os.environ)
+    env["PYTHONHASHSEED"] = "0"
+    env["VERIF_NO_REEXEC"] = "1"
+    env["VERIF_NPROC"] = "4"
+    env["VERIF_PYUBX2_LOGLEVEL"] = "DEBUG"
+    proc = subprocess.run(
+        [sys.executable, os.path.join(core.VERIF_DIR, "dst.py"), "units", mod.PROPERTY],
+        input=json.dumps(units), capture_output=True, text=True, env=env, timeout=1200, check=False,
+    )
+    line = [l for l in proc.stdout.splitlines() if l.startswith("UNITVIOLATIONS ")]
+    if proc.returncode != 0 or not line:
+        return [], 0, f"debug-logging slice rc={proc.returncode}: {proc.stderr[-400:]}"
+    data = json.loads(line[0][15:])
+    for scn in data["violations"]:
+        scn["environment"] = {"VERIF_PYUBX2_LOGLEVEL": "DEBUG"}
+    return data["violations"], data["evaluations"], None
+
+
 def optimize_slice(mod, units):
     """
     Execute a slice of units under `python -O` (assert statements compiled away): library logic that
@@ -330,6 +353,7 @@ def run_check(mod, tier, base_seed, budget_s=None, quiet=False):
         elif not same:
             harness_error = harness_error or "determinism slice: per-unit digests differ between two fresh interpreters"
     opt = None
+    dbg = None
     if slice_units and not os.environ.get("VERIF_SKIP_DETERMINISM"):
         o_all = slice_units[:DETERMINISM_UNITS] + o_units[:o_want]
         o_viol, o_evals, err = optimize_slice(mod, o_all)
@@ -337,6 +361,13 @@ def run_check(mod, tier, base_seed, budget_s=None, quiet=False):
         if err:
             harness_error = harness_error or err
         for scn in o_viol:
+            if signature(mod, scn) not in known_sigs:
+                total.violations.append(scn)
+        d_viol, d_evals, err = debuglog_slice(mod, o_all)
+        dbg = {"units": len(o_all), "evaluations": d_evals, "violations": len(d_viol)}
+        if err:
+            harness_error = harness_error or err
+        for scn in d_viol:
             if signature(mod, scn) not in known_sigs:
                 total.violations.append(scn)
     wall = _now() - t0
@@ -404,6 +435,7 @@ def run_check(mod, tier, base_seed, budget_s=None, quiet=False):
             "seeds": {"VERIF_SEED": base_seed, "run_seed_formula": "VERIF_SEED * 100000007 + i", "scenarios": total.runs},
             "determinism_checked": det,
             "python_O_slice": opt,
+            "debug_logging_slice": dbg,
         },
         "assumptions": mod.ASSUMPTIONS,
         "wall_s": round(wall, 2),
